@@ -221,3 +221,66 @@ class try_reuse_lands_within_tolerance:
         "K9": lambda: {"donor": _staircase(2, 2), "target": _staircase(2.09, 2), "tol": 0.1},
         "K9b": lambda: {"donor": [(340, 158), (187, 50), (256, 231), (281, 287)], "target": [(340, 158), (189.5, 50), (256, 231), (281, 287)], "tol": 1.0},
     }
+
+
+# ---- C19: an exact translated copy of a shape the cache holds is drawn from that shape ----
+#
+# The cache keys donors by picosvg's normal form (at tolerance / 10).  C19 needs: whatever else
+# was added in between, a later exact copy of an earlier shape finds it.
+
+
+def _gen_cache_history(rng, i=None):
+    # shapes of pairwise different vertex counts (so that no two share a normal form), added in
+    # random order, then an exactly translated copy of each
+    shapes = []
+    for n in rng.sample([3, 4, 5, 6, 7], rng.randint(2, 4)):
+        cx, cy, r = rng.randint(200, 800), rng.randint(200, 800), rng.randint(60, 150)
+        import math
+
+        pts = [(round(cx + r * (1 + 0.3 * ((k * 7) % 3)) * math.cos(2 * math.pi * k / n)), round(cy + r * math.sin(2 * math.pi * k / n))) for k in range(n)]
+        shapes.append(pts)
+    return {"history": shapes, "shifts": [(rng.randint(-150, 150), rng.randint(-150, 150)) for _ in shapes], "tol": rng.choice([0.1, 0.5])}
+
+
+def _k12_witness():
+    x = [(100, 100), (500, 100), (500, 500), (100, 500)]
+    y = [(100, 100), (500, 100), (500, 501), (100, 500)]  # not congruent to x, same normal form
+    return {"history": [x, y], "shifts": [(200, 100), (50, 60)], "tol": 0.1}
+
+
+def _run_cache_history(history, shifts, tol):
+    from nanoemoji.glyph_reuse import GlyphReuseCache
+
+    cache = GlyphReuseCache(tol)
+    owners = []
+    for k, pts in enumerate(history):
+        d = _path_of(pts)
+        r = cache.try_reuse(d)
+        if r is None:
+            cache.add_glyph(f"g{k}", d)
+            owners.append(f"g{k}")
+        else:
+            owners.append(r.glyph_name)
+    out = []
+    for k, (pts, (dx, dy)) in enumerate(zip(history, shifts)):
+        r = cache.try_reuse(_path_of([(x + dx, y + dy) for x, y in pts]))
+        out.append(None if r is None else (r.glyph_name, tuple(round(v, 6) for v in r.transform)))
+    return {"owners": owners, "copies": out}
+
+
+@contract("nanoemoji.glyph_reuse.GlyphReuseCache.try_reuse", props=["C19", "C06"])
+class cache_finds_every_earlier_shape:
+    bounded_only = True
+    gen = _gen_cache_history
+    native_call = _run_cache_history
+    n_quick = 100
+    n_thorough = 3000
+    known_witnesses = {"K12": _k12_witness}
+    ensures = {
+        # every exact translated copy is drawn from the glyph that holds its original, by that
+        # translation
+        "copies-drawn-from-their-originals": lambda history, shifts, result: all(
+            c is not None and c[0] == result["owners"][k] and max(abs(c[1][0] - 1), abs(c[1][1]), abs(c[1][2]), abs(c[1][3] - 1), abs(c[1][4] - shifts[k][0]), abs(c[1][5] - shifts[k][1])) <= 0.01
+            for k, c in enumerate(result["copies"])
+        ),
+    }
